@@ -155,6 +155,10 @@ def _edit_cases(tier, rng):
         out.add('=' + ''.join(rng.choice(alphabet) for _ in range(rng.randrange(0, 12))))
     for _ in range(n // 3):
         out.add(''.join(rng.choice(alphabet) for _ in range(rng.randrange(0, 8))))
+    # very long numeric literals (CPython refuses to convert more than 4300 digits to an int: KF-C18-11)
+    out.add('=' + '1' * 5000)
+    out.add('=1+' + '7' * 4301)
+    out.add('=' + '1' * 4000)
     return sorted(out)
 
 
@@ -170,6 +174,8 @@ def _classify_text(case, detail):
         return 'KF-C18-1'
     if "KeyError: '\\t'" in detail and '\t' in case:
         return 'KF-C18-6'
+    if len(case) > 4300 and 'ValueError' in detail and 'integer string conversion' in detail:
+        return 'KF-C18-11'
     return None
 
 
